@@ -139,23 +139,96 @@ def gen_rule(rng, genes, depth):
 
 # ------------------------------------------------------------------ translations
 def to_cobra(net, solver="glpk", name="net"):
+    """The network as a cobra.Model.  The SAME content is reached along one of several equivalent construction
+    histories (chosen from the network's own hash, so a case replays exactly): all at once, or through later edits
+    of reactions that are already in the model (scaling by -1, identifier keys, bound setters, one coefficient at a
+    time, objective coefficients one by one, a rolled-back block).  A defect of the editing operations or of the
+    solver synchronisation then shows up in every LP-based check as a wrong optimum / range."""
+    import hashlib
+    import json
+    import random
     import cobra
     from cobra import Metabolite, Model, Reaction
+    style = net.get("style")
+    if style is None:
+        h = int(hashlib.sha1(json.dumps(net, sort_keys=True, default=str).encode()).hexdigest()[:8], 16)
+        style = h % 10          # 0-4: direct; 5-9: through edits
+    rng = random.Random(style * 7919 + len(net["rxns"]))
     m = Model(name)
     m.solver = solver
     mets = {i: Metabolite(i, compartment=i.rsplit("_", 1)[-1]) for i in net["mets"]}
     m.add_metabolites(list(mets.values()))
     rs = []
+    later = []          # edits applied once the reaction is in the model
     for r in net["rxns"]:
         rx = Reaction(r["id"])
-        rx.bounds = (fl(r["lb"]), fl(r["ub"]))
-        rx.add_metabolites({mets[k]: float(F(v)) for k, v in r["st"].items()})
+        lb, ub = fl(r["lb"]), fl(r["ub"])
+        st = {k: float(F(v)) for k, v in r["st"].items()}
+        how = rng.choice(["direct", "scaled", "idkeys", "setters", "replace"]) if style >= 5 else "direct"
+        if how == "scaled":             # written the other way round, turned by  rx *= -1  inside the model
+            rx.bounds = (-ub, -lb)
+            rx.add_metabolites({mets[k]: -v for k, v in st.items()})
+            later.append(("imul", rx, None))
+        elif how == "idkeys":           # stoichiometry added by metabolite identifiers once it is in the model
+            rx.bounds = (lb, ub)
+            later.append(("idkeys", rx, st))
+        elif how == "setters":          # default bounds first, then the single-bound setters in a valid order
+            rx.add_metabolites({mets[k]: v for k, v in st.items()})
+            later.append(("setters", rx, (lb, ub)))
+        elif how == "replace":          # wrong coefficients first, replaced (combine=False) inside the model
+            rx.bounds = (lb, ub)
+            rx.add_metabolites({mets[k]: v * 2 + 1 for k, v in st.items()})
+            later.append(("replace", rx, st))
+        else:
+            rx.bounds = (lb, ub)
+            rx.add_metabolites({mets[k]: v for k, v in st.items()})
         if r.get("gpr"):
             rx.gene_reaction_rule = r["gpr"]
         rs.append(rx)
     m.add_reactions(rs)
-    m.objective = {m.reactions.get_by_id(r["id"]): float(F(r["obj"])) for r in net["rxns"] if F(r["obj"]) != 0}
+    for what, rx, arg in later:
+        if what == "imul":
+            rx *= -1
+        elif what == "idkeys":
+            rx.add_metabolites(dict(arg))
+        elif what == "setters":
+            lb, ub = arg
+            if lb <= rx.upper_bound:
+                rx.lower_bound = lb
+                rx.upper_bound = ub
+            else:
+                rx.upper_bound = ub
+                rx.lower_bound = lb
+        elif what == "replace":
+            rx.add_metabolites({mets[k]: v for k, v in arg.items()}, combine=False)
+    obj = {m.reactions.get_by_id(r["id"]): float(F(r["obj"])) for r in net["rxns"] if F(r["obj"]) != 0}
+    if style >= 5 and style % 2 == 1:
+        for rx, c in obj.items():       # one coefficient at a time
+            rx.objective_coefficient = c
+    else:
+        m.objective = obj
     m.objective_direction = net["dir"]
+    if style in (6, 7, 9) and net["mets"]:
+        # a temporary reaction that was part of the objective (negative weight) and is removed again, outside any block
+        tmp = Reaction("ZZ_tmp")
+        tmp.bounds = (-5, 5)
+        tmp.add_metabolites({mets[net["mets"][0]]: -1.0})
+        m.add_reactions([tmp])
+        tmp.objective_coefficient = -2.0
+        m.remove_reactions([tmp])
+    if style >= 8 and len(rs) >= 2:     # a block that removes reactions (and edits one in place) is rolled back
+        order = [r.id for r in m.reactions]
+        with m:
+            victims = rng.sample(rs, 2)
+            victims[0].bounds = (0, 0)
+            m.remove_reactions(victims)
+            m.objective_direction = "min" if net["dir"] == "max" else "max"
+            if style == 9 and len(m.genes) >= 1:
+                from cobra.manipulation.modify import rename_genes
+                rename_genes(m, {m.genes[0].id: "zz_renamed_gene"})
+        # the rollback re-appends the reactions at the end of model.reactions: put the documented order back
+        if [r.id for r in m.reactions] != order:
+            m.reactions.sort(key=lambda r: order.index(r.id))     # (DictList.sort rebuilds its own index)
     return m
 
 
